@@ -229,6 +229,58 @@ fn get_or_fetch_post_enqueue(this: &mut PollT, res: &Result<EntryT>)
 //@end
 
 // =====================================================================================================
+// C12: what a disk hit turns into (HybridCache::get and ::get_or_fetch, disk-load closures): the entry re-enters memory
+// with the AGE the disk tier reported (Young / Old), default placement advice, not phantom -- the engine skips Young
+// entries on their next eviction (store.engine_enqueue), so a disk hit is rewritten only when its block is about to be
+// reclaimed (Old). A throttled load sets the context flag and is a miss for this step.
+// =====================================================================================================
+impl HybridCacheProperties {
+    /// `#[derive(Default)]`: field defaults; the enum defaults come from the extracted `#[default]` variants
+    pub fn default() -> (r: Self)
+        ensures !r.phantom, r.location == Location::Default, r.age == Age::Fresh, // @label default_properties_are_default_advice_and_fresh
+    { HybridCacheProperties { phantom: false, hint: Hint::default(), location: Location::default(), age: Age::default() } }
+    /// `fn with_age(mut self, age) -> Self { self.age = age; self }` (`mut self` parameters are outside the Verus subset)
+    pub fn with_age(self, age: Age) -> (r: Self)
+        ensures r.age == age, r.phantom == self.phantom, r.hint == self.hint, r.location == self.location,
+    { let mut s = self; s.age = age; s }
+    pub fn with_location(self, location: Location) -> (r: Self)
+        ensures r.location == location, r.phantom == self.phantom, r.hint == self.hint, r.age == self.age,
+    { let mut s = self; s.location = location; s }
+}
+//@item foyer-storage/src/engine/mod.rs :: struct Populated rules=derive-clone-copy,pub-fields
+pub enum Load { Entry { key: u64, value: u64, populated: Populated }, Piece { piece: PieceT, populated: Populated }, Throttled, Miss }
+pub enum FetchTarget { Entry { value: u64, properties: HybridCacheProperties }, Piece(PieceT) }
+pub struct LoadStoreT { pub answer: Result<Load> }
+impl LoadStoreT {
+    #[verifier::external_body]
+    pub fn load(&self, key: &u64) -> (r: Result<Load>) ensures r == self.answer { unimplemented!() }
+}
+pub open spec fn disk_hit_target(answer: Result<Load>, r: Result<Option<FetchTarget>>) -> bool {
+    match answer {
+        Ok(Load::Entry { key, value, populated }) => r matches Ok(Some(FetchTarget::Entry { value: v, properties: p }))
+            && v == value && p.age == populated.age && p.location == Location::Default && !p.phantom,
+        Ok(Load::Piece { piece, populated }) => r matches Ok(Some(FetchTarget::Piece(q))) && q == piece,
+        Ok(Load::Throttled) => r matches Ok(None),
+        Ok(Load::Miss) => r matches Ok(None),
+        Err(e) => r is Err,
+    }
+}
+//@region foyer/src/hybrid/cache.rs :: impl~^impl<K, V, S> HybridCache<K, V, S> where/fn get name=get_disk_hit start=/match store\.load\(&key\)\.await \{/ stmts=1 rules=de-async
+//@head
+fn get_disk_hit(store: &LoadStoreT, key: u64, ctx: &mut CtxT) -> (r: Result<Option<FetchTarget>>)
+    ensures
+        disk_hit_target(store.answer, r), // @label disk_hit_re_enters_memory_with_the_age_the_disk_tier_reported
+        final(ctx).throttled.v == (old(ctx).throttled.v || store.answer matches Ok(Load::Throttled)), // @label throttled_load_sets_the_context_flag
+//@end
+//@region foyer/src/hybrid/cache.rs :: impl~^impl<K, V, S> HybridCache<K, V, S> where/fn get_or_fetch name=get_or_fetch_disk_hit start=/let load = store\.load\(&key\)\.await;/ stmts=3 rules=de-async,drop-tracing
+//@head
+fn get_or_fetch_disk_hit(store: &LoadStoreT, key: u64, ctx: &mut CtxT) -> (r: Result<Option<FetchTarget>>)
+    ensures
+        disk_hit_target(store.answer, r), // @label disk_hit_re_enters_memory_with_the_age_the_disk_tier_reported
+        final(ctx).throttled.v == (old(ctx).throttled.v || store.answer matches Ok(Load::Throttled)), // @label throttled_load_sets_the_context_flag
+//@end
+
+// =====================================================================================================
 // C15: graceful close
 // =====================================================================================================
 //@region foyer/src/hybrid/cache.rs :: impl~^impl<K, V, S> Inner<K, V, S> where/fn close_inner name=close_inner start=/if closed\.fetch_or\(/ stmts=4 rules=drop-tracing,de-async
